@@ -453,9 +453,15 @@ class Graph:
                 else:
                     enc.append(r)
                     stack.append(r)
-        self.m["services"].append({"name": name, "inI": inI, "inD": inD, "enc": enc, "out": list(outs)})
+        sv = {"name": name, "inI": inI, "inD": inD, "enc": enc, "out": list(outs)}
+        self.m["services"].append(sv)
         if len(outs) == 1:
             k = self.kind(outs[0])
+            # the service's own output variable may be typed (more often when an input decision is typed too: the parameter types of
+            # the function the service is bound to come from the input decisions' variables, not from the service's)
+            typed_in = any(self.dec[d].get("type") for d in inD)
+            if TYPE_OF_KIND.get(k) and s.bool(0.6 if typed_in else 0.25):
+                sv["type"] = TYPE_OF_KIND[k]
         else:
             k = ("ctx", tuple(sorted((o, self.kind(o)) for o in outs)))
         params = inI + inD
